@@ -660,7 +660,12 @@ func (p *Parse) analyzeDefault() {
 					currModule = p.tarsFile.Module.Name
 				}
 				if len(enum.Module) > 0 && currModule != enum.Module {
-					defValue = enum.Module + "." + defValue
+					enumModule := enum.Module
+					if p.opt.ModuleUpper && !p.opt.ModuleCycle {
+						// the package of that module is generated under the upper-cased name
+						enumModule = utils.UpperFirstLetter(enumModule)
+					}
+					defValue = enumModule + "." + defValue
 				}
 				v.Mb[i].Default = defValue
 			}
